@@ -27,6 +27,10 @@ checks = {
    "Exhaustive to the bound (quick L<=24,K<=26; thorough L<=60,K<=64; five encodings): ranges contiguous/disjoint/covering, count equals -size, every range executed by hermes2go -lines, each line id executed exactly once."),
  "C20": ("simmon", "exploration", "3 C20", "runtime monitoring: groundwater level read at the probe on every simulated day compared with an independent interpolation / sinusoid; dense calls of the public interpolation function",
    "Level of every simulated day equals series value / linear interpolation / nearest end value, or the configured sinusoid within [min,max]; function-level: nodes, neighbours of nodes, outside span, random interior days of generated series."),
+ "C05": ("simmon", "exploration", "3 C05", "runtime monitoring: the result files written by real generated runs are parsed and compared record by record with an independent calendar / rotation oracle",
+   "Daily file: exactly the expected days (start..end, interval k, leap days) in order; yearly file: one record per annual output date inside the period; crop file: one record per harvested rotation entry in order; every record has the configured number of fields; both styles; random output configurations. One open finding (end-date extension)."),
+ "C14": ("simmon", "exploration", "3 C14", "runtime monitoring: probe-and-abort read-back of the effective configuration from the real reader for generated file/line/default combinations, plus full runs with decoy file values",
+   "Every scalar key (numeric, text, on/off, enum) in random subsets of file and line, unknown keys, missing file, two argument orders per case: effective value = line, else file, else default; full runs confirm the line value in run state and result files."),
 }
 
 not_applicable = {
@@ -35,11 +39,9 @@ not_applicable = {
 pending = {  # not yet built: listed as not claimed until their check exists
  "C03": "check under construction (batch/race engine)",
  "C04": "check under construction",
- "C05": "check under construction",
  "C10": "check under construction",
  "C11": "check under construction",
  "C13": "check under construction",
- "C14": "check under construction",
  "C16": "check under construction",
  "C18": "check under construction",
 }
